@@ -66,25 +66,24 @@ def parseCond (j : Json) (ncomp : Nat) : Except String (Cond Rat) := do
   | "exprMixed" => do pure (.exprMixed (← get "v") (← get "c"))
   | _ => throw s!"unknown cond {kind}"
 
-/-- does a `mixed` condition contain a finite coefficient with `2 + dx*gamma = 0`? -/
-def condSingular (j : Json) : Except String Bool := do
+/-- where does a `mixed` condition have a finite coefficient with `2 + dx*gamma = 0`?
+(as a function of the value index) -/
+def condSingular (j : Json) (ncomp : Nat) : Except String (List Int → Bool) := do
   let kind ← fldS j "kind"
-  if kind != "mixed" then return false
+  if kind != "mixed" then return (fun _ => false)
   match fldOpt j "dx" with
-  | none => return false
+  | none => return (fun _ => false)
   | some dxj => do
     let dx ← getQ dxj
+    let vshape ← (do match fldOpt j "vshape" with | some v => getL getN v | none => pure [])
     let v ← getArr j "v"
     let vinf ← (match fldOpt j "vinf" with | some _ => do pure (some (← getArr j "vinf")) | none => pure none)
-    return (List.range v.size).any (fun k =>
-      let c : Coef Rat := match vinf with
-        | some fl => if fl.getD k 0 != 0 then .inf else .fin (v.getD k 0)
-        | none => .fin (v.getD k 0)
-      c.singular dx)
+    return (fun vi => (coefFn vshape ncomp v vinf vi).singular dx)
 
-def parseFaces (j : Json) (shape : List Nat) (rank : Nat) : Except String (List (Face × Rat × Cond Rat) × Bool) := do
+def parseFaces (j : Json) (shape : List Nat) (rank : Nat) :
+    Except String (List (Face × Rat × Cond Rat) × List (Face × (List Int → Bool))) := do
   let facesJ ← (do getL pure (← fld j "faces"))
-  let mut sing := false
+  let mut sing : List (Face × (List Int → Bool)) := []
   let mut out : List (Face × Rat × Cond Rat) := []
   for fj in facesJ do
     let axis ← fldN fj "axis"
@@ -94,9 +93,9 @@ def parseFaces (j : Json) (shape : List Nat) (rank : Nat) : Except String (List 
     let ncomp := if normal then rank - 1 else rank
     let cj ← fld fj "cond"
     let c ← parseCond cj ncomp
-    if (← condSingular cj) then sing := true
     let f : Face := { shape := shape, rank := rank, axis := axis,
                       side := if upper then .upper else .lower, normal := normal }
+    sing := sing ++ [(f, ← condSingular cj ncomp)]
     out := out ++ [(f, dx, c)]
   pure (out, sing)
 
@@ -113,9 +112,9 @@ def ghost (j : Json) : Except String Json := do
   let a1 := setGhostAll faces a0
   pure (jQs ((allIdx fshape).map a1))
 
-/-- as `ghost`, and additionally which entries are the result of a division by zero in an
-expression condition (flat indices) and whether a `mixed` condition has a singular coefficient:
-{"a": [...], "div0": [k..], "singular": bool} -/
+/-- as `ghost`, and additionally which entries (flat indices) are the result of a division by
+zero in an expression condition (`div0`) and which are written by a `mixed` condition at a
+singular finite coefficient (`sing`): {"a": [...], "div0": [k..], "sing": [k..]} -/
 def ghost2 (j : Json) : Except String Json := do
   let shape ← fldNs j "shape"
   let rank ← fldN j "rank"
@@ -128,7 +127,9 @@ def ghost2 (j : Json) : Except String Json := do
   let all := allIdx fshape
   let div0 := (all.zipIdx).filterMap (fun (p : List Int × Nat) =>
     if faces.any (fun fc => fc.1.writes p.1 && divByZero fc.1 fc.2.1 fc.2.2 p.1) then some p.2 else none)
-  pure (Json.mkObj [("a", jQs (all.map a1)), ("div0", toJson div0), ("singular", toJson sing)])
+  let sng := (all.zipIdx).filterMap (fun (p : List Int × Nat) =>
+    if sing.any (fun fs => fs.1.writes p.1 && fs.2 (fs.1.valueIdx p.1)) then some p.2 else none)
+  pure (Json.mkObj [("a", jQs (all.map a1)), ("div0", toJson div0), ("sing", toJson sng)])
 
 /-- virtual point data of one condition for every element of its value array:
 {"kind", "dx", "N", "upper", "v":[..], "c":[..], "vinf":[..]} ->
